@@ -3,11 +3,39 @@ package main
 import (
 	"fmt"
 	"os"
+	"strconv"
 )
 
 func usage() {
-	fmt.Fprintln(os.Stderr, "usage: harness tables | gen <prop> <seed> <n> <out> | run <cases> <out> | oracle <prop> <seed> <budget_ms> <out>")
+	fmt.Fprintln(os.Stderr, `usage:
+  harness tables                                  Gen/Tables.v on stdout
+  harness run <prop> <seed> <quick|thorough> <outprefix>
+        writes <outprefix>.cases (for the model) and <outprefix>.report.json
+  harness replay <file.json>                      re-runs a replay file against /repo`)
 	os.Exit(2)
+}
+
+var props = map[string]propFn{
+	"C01": resumeProp([]int{kMsg}, 1500, 25000),
+	"C02": resumeProp(subKinds, 3000, 45000),
+	"C03": propC03,
+	"C04": propC04,
+	"C05": propC05,
+	"C06": propC06,
+	"C07": propC07,
+	"C08": propC08,
+	"C09": propC09,
+	"C10": propC10,
+	"C11": propC11,
+	"C12": propC12,
+	"C13": propC13,
+	"C14": propC14,
+	"C15": propC15,
+	"C16": propC16,
+	"C17": propC17,
+	"C18": propC18,
+	"C19": propC19,
+	"C20": propC20,
 }
 
 func main() {
@@ -17,6 +45,37 @@ func main() {
 	switch os.Args[1] {
 	case "tables":
 		emitTables(os.Stdout)
+	case "run":
+		if len(os.Args) != 6 {
+			usage()
+		}
+		prop := os.Args[2]
+		seed, err := strconv.ParseInt(os.Args[3], 10, 64)
+		if err != nil {
+			usage()
+		}
+		thorough := os.Args[4] == "thorough"
+		f, ok := props[prop]
+		if !ok {
+			fmt.Fprintln(os.Stderr, "unknown property", prop)
+			os.Exit(2)
+		}
+		startWatchdog(os.Args[5])
+		g := newG(seed*1000003 + int64(len(prop)) + int64(prop[1])*31 + int64(prop[2]))
+		w := newCaseW(os.Args[5] + ".cases")
+		rep := newReport(prop, seed, os.Args[4])
+		// the committed corpus of past disagreements runs first
+		runCorpus(prop, w, rep)
+		f(g, w, rep, thorough)
+		w.close()
+		rep.Dist["model_cases"] = w.n
+		rep.write(os.Args[5] + ".report.json")
+		fmt.Printf("harness: %s cases=%d model_cases=%d oracle_evals=%d violations=%d\n", prop, rep.Cases, w.n, rep.OracleEval, len(rep.Violations))
+	case "replay":
+		if len(os.Args) != 3 {
+			usage()
+		}
+		os.Exit(replay(os.Args[2]))
 	default:
 		usage()
 	}
